@@ -115,3 +115,61 @@ pub fn inline_all(m: &Model, method_types: &[&str]) -> std::collections::BTreeMa
     }
     t
 }
+
+/// Per-module backend state must be re-initialised from the current module's header by an
+/// *unconditional* top-level statement of the header block of generate_module, before the first
+/// statement that renders anything. `field` is the backend field (e.g. "extensibility_environment").
+pub fn reset_rule(m: &Model, ctx: &mut Ctx, rule: &str, field: &str) {
+    let gms: Vec<&FnInfo> = m.fns.iter().filter(|f| f.name == "generate_module" && f.self_ty.as_deref() == Some("Rasn")).collect();
+    let Some(f) = gms.first() else {
+        ctx.fail_closed(rule, "anchor not found: Rasn::generate_module");
+        return;
+    };
+    ctx.func(&f.key);
+    ctx.oblige(rule, &format!("reset:{}", field), true);
+    // the `if let Some(..) = tlds.first()..` block
+    let mut block: Option<&syn::Block> = None;
+    for st in &f.block.stmts {
+        if let syn::Stmt::Expr(syn::Expr::If(i), _) = st {
+            if tok(&i.cond).contains("tlds.first()") {
+                block = Some(&i.then_branch);
+            }
+        }
+    }
+    let Some(block) = block else {
+        ctx.fail_closed(rule, "generate_module: header block not found");
+        return;
+    };
+    let want = format!("self.{}=module.{};", field, field);
+    let mut assign_at = None;
+    let mut first_use = None;
+    for (i, st) in block.stmts.iter().enumerate() {
+        let t = tok(st);
+        if t == want && assign_at.is_none() {
+            assign_at = Some(i);
+        }
+        let uses = t.contains("self.generate_tld(") || t.contains("self.to_rust_") || t.contains("self.generate(");
+        if uses && first_use.is_none() {
+            first_use = Some(i);
+        }
+    }
+    let line = f.line;
+    match (assign_at, first_use) {
+        (Some(a), Some(u)) if a < u => {}
+        (Some(_), Some(_)) => ctx.violate(rule, &format!("reset-after-use:{}", field), &f.file, line,
+            &format!("generate_module assigns self.{} only after it has started rendering: the value of the previously generated module is used first", field)),
+        (None, _) => {
+            let nested = tok(block).contains(&format!("self.{}=", field));
+            ctx.violate(rule, &format!("reset-not-unconditional:{}", field), &f.file, line,
+                &format!("generate_module does not unconditionally assign self.{field} from the current module's header ({}): the {field} of the module generated before leaks into this one", if nested { "the assignment is nested in a condition or has another source" } else { "no assignment found" }, field = field));
+        }
+        (Some(_), None) => ctx.fail_closed(rule, "generate_module: no rendering statement found"),
+    }
+    // `module` is the header of this module's own definitions
+    ctx.oblige(rule, "reset:source-is-own-header", true);
+    let b = tok(block);
+    let head = tok(&f.block);
+    if !(head.contains("if let Some(module_ref)=tlds.first().and_then(|tld|tld.get_module_header())") && b.starts_with("{let module=module_ref.borrow();")) {
+        ctx.violate(rule, "reset:source-is-own-header", &f.file, line, "generate_module must take the defaults from the header attached to the module's own definitions");
+    }
+}
